@@ -227,10 +227,29 @@ def _limit_ok(dev):
     return dev['limit'] >= 2 and dev['cc'] in REJECT
 
 
-def judge(ctx, dev, op, out, trace, dump):
-    """Property oracle on the real code's behaviour.  Reports through ctx.violate."""
+def _effective(faults, trace):
+    """the faults of a plan that changed an answer: the request index was reached, and for `s` the
+    request is a Write FRU Data carrying more than n data bytes"""
+    out = []
+    for k, t, v in faults:
+        k, v = int(k), int(v)
+        if k >= len(trace):
+            continue
+        if t == 's' and not (trace[k][0] == 0x12 and len(trace[k][1]) - 3 > v):
+            continue
+        out.append((k, t, v))
+    return out
+
+
+def judge(ctx, dev, op, out, trace, dump, case=None, faults=()):
+    """Property oracle on the real code's behaviour.  Reports through ctx.violate.
+    `dev` describes the device AT THE MOMENT the operation starts (in a history: the contents dumped
+    right before the step); `faults` is the step's fault plan (only faults whose request index was
+    reached count); `case` is what a replay needs (default: the single case)."""
     store = _store(dev)
-    case = {'dev': dev, 'op': op}
+    if case is None:
+        case = {'dev': dev, 'op': op}
+    hit = _effective(faults, trace)
     kind, fid = op[0], int(op[1])
     # -- every request names the FRU id the caller named
     for t in trace:
@@ -255,6 +274,8 @@ def judge(ctx, dev, op, out, trace, dump):
                 return
             want = content[off:off + cnt]
         exp = 'ok ' + lean.hexs(want)
+        if hit and not out.startswith('ok '):
+            return      # a request of this read was answered with an injected error: it may fail
         if out != exp:
             ctx.violate('C10:%s:data' % ('read_fru_data_full' if kind == 'full' else 'read_fru_data'),
                         'the bytes returned differ from the bytes the device stores in the requested range', case,
@@ -266,6 +287,15 @@ def judge(ctx, dev, op, out, trace, dump):
             return
         wl = (_consts or {}).get('fru', {}).get('writeLen', 16)
         first = min(wl, len(data)) if wl else 0
+        if hit:
+            # chunk k was answered with an error code (not judged here: C08) or stored only n of its
+            # bytes: a different count than sent must end in an exception
+            for k, t, v in hit:
+                if t == 's' and out.startswith('ok'):
+                    ctx.violate('C10:write_fru_data:count-mismatch',
+                                'the device acknowledged fewer bytes than sent and write_fru_data reported success',
+                                case, expected='an exception', observed=out)
+            return
         if dev['wmax'] >= max(wl, 1) or len(data) == 0:
             want = dict(store)
             want[fid] = content[:off] + data + content[off + len(data):]
@@ -284,6 +314,8 @@ def judge(ctx, dev, op, out, trace, dump):
         return
     loc = locate(content)
     if loc is None:
+        return
+    if hit and not out.startswith('ok '):
         return
     if kind == 'hdr':
         exp = 'ok ' + ','.join(_opt(x) for x in loc['hdr'])
@@ -332,6 +364,261 @@ def one_case(ctx, drv, dev, op, shipped, compare=True):
                 what = 'driver: ' + model[:200]
             ctx.disagree(op[0], {'dev': dev, 'op': op, 'shipped': shipped}, what, out[:200])
     return out, trace
+
+
+# ---- histories: several operations on ONE Ipmi object against ONE device ------------------------
+#
+# A history is a device plus a list of steps {'op': [...], 'faults': [[k, 'c'|'s', v], ...]}.  All
+# steps run on the same Ipmi object and the same device; before each step the device's fault plan
+# is replaced by the step's own (request indices count from the step's first request).  Every step
+# is judged on its own by `judge` against the contents the device holds when the step starts, and
+# compared with the Lean model started from that device (the model has no state between calls, so
+# "same as on a fresh object" is what the comparison demands).
+
+def _frus_of_dump(dump):
+    if dump == '-':
+        return []
+    return [(int(t.split(':')[0]), t.split(':')[1]) for t in dump.split(' ')]
+
+
+def run_history(drv, dev, steps, shipped=False, compare=False):
+    """-> per step (device description at the start of the step, outcome, trace, dump, model line)"""
+    device = dev10.LeanDevice(drv)
+    device.load(dev_line(dev))
+    iface = dev10.FakeInterface(device, cap=0)
+    ipmi = dev10.make_ipmi(iface)
+    old = _patch_parsers()
+    res = []
+    try:
+        for st in steps:
+            device.faults(st.get('faults') or [])
+            device.snap()
+            cur = dict(dev, frus=_frus_of_dump(device.dump()))
+            start = len(iface.trace)
+            iface.cap = start + 6 * sum(len(h) // 2 for _, h in cur['frus']) + 400
+            try:
+                out = real_op(ipmi, [str(x) for x in st['op']])
+            except dev10.Hang as e:
+                out = dev10.outcome_tag(e)
+            except lean.LeanError:
+                raise
+            except Exception as e:  # noqa
+                out = dev10.outcome_tag(e)
+            model = drv.ask('run %d %s' % (1 if shipped else 0, ' '.join(str(x) for x in st['op']))) if compare else None
+            res.append((cur, out, iface.trace[start:], device.dump(), model))
+    finally:
+        _unpatch_parsers(old)
+    return res
+
+
+def _judge_step(ctx_cls, dev, steps, k, r):
+    """violations of step k (fresh collector)"""
+    c2 = ctx_cls('C10', 'quick', 0)
+    cur, out, trace, dump, _ = r
+    judge(c2, cur, [str(x) for x in steps[k]['op']], out, trace, dump,
+          case={'dev': dev, 'steps': steps, 'step': k}, faults=steps[k].get('faults') or ())
+    return c2.violations
+
+
+def _history_shows(ctx_cls, drv, dev, steps, sig):
+    """does the LAST step of the history violate `sig`?"""
+    res = run_history(drv, dev, steps)
+    return any(v['signature'] == sig for v in _judge_step(ctx_cls, dev, steps, len(steps) - 1, res[-1]))
+
+
+def shrink_history(ctx_cls, drv, dev, steps, k, sig):
+    """drop the steps after k and every earlier step the violation does not need"""
+    steps = list(steps[:k + 1])
+    i = 0
+    while i < len(steps) - 1:
+        cand = steps[:i] + steps[i + 1:]
+        if _history_shows(ctx_cls, drv, dev, cand, sig):
+            steps = cand
+        else:
+            i += 1
+    return steps
+
+
+def history_case(ctx, drv, dev, steps, shipped, tag):
+    res = run_history(drv, dev, steps, shipped, compare=True)
+    ctx.count('history:' + tag)
+    ctx.count('history-steps', len(steps))
+    for k, r in enumerate(res):
+        cur, out, trace, dump, model = r
+        op = [str(x) for x in steps[k]['op']]
+        ctx.case(('history', dev_line(dev), json.dumps(steps[:k + 1])), nontrivial=k >= 1)
+        ctx.count('history-op:' + op[0] + ('+fault' if _effective(steps[k].get('faults') or (), trace) else ''))
+        ctx.count('history-outcome:' + out.split(' ')[0].split(':')[0])
+        for v in _judge_step(ctx.__class__, dev, steps, k, r):
+            sig = v['signature']
+            if k > 0 and not _history_shows(ctx.__class__, drv, cur, [steps[k]], sig):
+                # the same operation on a fresh object against the same device contents is fine
+                small = shrink_history(ctx.__class__, drv, dev, steps, k, sig)
+                v['signature'] = sig + ':after-earlier-operations'
+                v['what'] += ' - on an Ipmi object that performed other operations before (the same operation on a ' \
+                             'fresh object against the same device contents is served correctly)'
+                v['case'] = {'dev': dev, 'steps': small, 'step': len(small) - 1}
+            elif k > 0:
+                v['case'] = {'dev': cur, 'steps': [steps[k]], 'step': 0}
+            ctx.violate(v['signature'], v['what'], v['case'], expected=v['expected'], observed=v['observed'])
+        parts = model.split(' | ')
+        code = [out, dev10.show_trace(trace), dump]
+        if parts != code:
+            if len(parts) == 3 and parts[0] == out and parts[2] == dump:
+                what = 'trace: ' + _first_diff(parts[1], code[1])
+            elif len(parts) == 3:
+                what = 'outcome/contents: model %s / code %s' % (parts[0][:120], out[:120])
+            else:
+                what = 'driver: ' + model[:200]
+            ctx.disagree('history step %d (%s)' % (k, op[0]), {'dev': dev, 'steps': steps, 'step': k, 'shipped': shipped},
+                         what, out[:200])
+    return res
+
+
+BAD_COUNTS = [1, 2, 3, 5, 8, 16, 31, 32, 33, 64]
+FAULT_CODES = [0xC3, 0xC0, 0xFF, 0xC9, 0xCA, 0xD5]
+
+
+def _bad_read(rng, fid, n):
+    """a range that is not inside an area of n bytes (the device refuses it at every size)"""
+    c = rng.choice(BAD_COUNTS)
+    r = rng.random()
+    if r < 0.4:
+        off = n
+    elif r < 0.8:
+        off = max(0, n - rng.randrange(0, c))
+        if off + c <= n:
+            off = n
+    else:
+        off = n + rng.randrange(1, 40)
+    return ['read', str(fid), str(off), str(c)]
+
+
+def _prior_op(rng, dev):
+    """an operation that leaves the device contents alone (incl. reads that must fail)"""
+    store = _store(dev)
+    fid = _pick_id(rng, dev)
+    n = len(store[fid])
+    r = rng.random()
+    if r < 0.45:
+        return _bad_read(rng, fid, n)
+    if r < 0.6:
+        off, cnt = _range(rng, n)
+        return ['read', str(fid), str(off), str(cnt)]
+    if r < 0.7 and n <= 1200:
+        return ['full', str(fid)]
+    if r < 0.8:
+        return ['read', str(rng.choice([i for i in range(256) if i not in store])), '0', '8']
+    if r < 0.9:
+        return ['hdr', str(fid)]
+    return ['inv', str(fid)]
+
+
+def _faulted_write(rng, fid, off, data, wl):
+    """(step with a fault at chunk k, step that resumes the write behind what was stored)"""
+    nch = max(1, (len(data) + wl - 1) // wl)
+    k = rng.randrange(nch)
+    clen = min(wl, len(data) - k * wl)
+    if rng.random() < 0.55:
+        fault, stored = [k, 'c', rng.choice(FAULT_CODES)], 0
+    else:
+        stored = rng.choice([0, 1, clen // 2, max(clen - 1, 0)])
+        fault = [k, 's', stored]
+    j = k * wl + stored
+    return ({'op': ['write', str(fid), str(off), lean.hexs(data)], 'faults': [fault]},
+            {'op': ['write', str(fid), str(off + j), lean.hexs(data[j:])]})
+
+
+def gen_history(rng, wl=16):
+    images = rng.random() < 0.45
+    dev = gen_device(rng, sizes=[8, 16, 40, 64, 100, 300, 600], images=images)
+    r = rng.random()
+    if r < 0.3:
+        dev['limit'] = rng.choice([2, 3, 4, 255, 255])
+    dev['wmax'] = rng.choice([16, 32, 255])
+    view = dict((i, bytearray(c)) for i, c in _store(dev).items())      # what the generator believes is stored
+    steps = []
+    want = rng.randrange(2, 7)
+    while len(steps) < want:
+        fid = _pick_id(rng, dev)
+        n = len(view[fid])
+        r = rng.random()
+        if r < 0.2:
+            off, cnt = _range(rng, n)
+            steps.append({'op': ['read', str(fid), str(off), str(cnt)]})
+        elif r < 0.28:
+            steps.append({'op': ['full', str(fid)]})
+        elif r < 0.45:
+            steps.append({'op': _bad_read(rng, fid, n)})
+        elif r < 0.5:
+            steps.append({'op': ['read', str(rng.choice([i for i in range(256) if i not in view])), '0', '8']})
+        elif r < 0.78:
+            if images and rng.random() < 0.7:
+                data = fru_image(rng, [a for a in 'cbpm' if rng.random() < 0.6])
+                off = 0
+            else:
+                ln = min(rng.choice([1, 15, 16, 17, 31, 32, 33, 48, 64]), n)
+                data = _blob(rng, ln)
+                off = rng.choice([0, n - ln, rng.randrange(0, n - ln + 1)])
+            if off + len(data) > n or not data:
+                continue
+            if rng.random() < 0.5:
+                a, b = _faulted_write(rng, fid, off, data, wl)
+                steps += [a, b]
+            else:
+                steps.append({'op': ['write', str(fid), str(off), lean.hexs(data)]})
+            view[fid][off:off + len(data)] = data
+        else:
+            q = rng.random()
+            op = ['hdr', str(fid)] if q < 0.15 else ['area', str(fid), rng.choice('cbp')] if q < 0.4 else \
+                ['mr', str(fid)] if q < 0.55 else ['inv', str(fid)]
+            steps.append({'op': op})
+    return dev, steps
+
+
+def directed_histories(rng, wl=16):
+    """(tag, device, steps): the shapes earlier seeded changes needed"""
+    out = []
+    # a read the device refuses at every size (last size tried odd / even), then valid reads
+    for cnt in (5, 8, 32, 33, 1, 2):
+        for limit in (255, 32, 2):
+            n = rng.choice([300, 512, 600])
+            dev = {'limit': limit, 'cc': rng.choice(REJECT), 'short': False, 'wmax': 16,
+                   'frus': [(0, lean.hexs(_blob(rng, n))), (3, lean.hexs(_blob(rng, n)))]}
+            fid, other = rng.choice([(0, 3), (3, 0), (3, 3)])
+            out.append(('refused-read-then-reads', dev, [
+                {'op': ['read', str(fid), str(n - rng.randrange(0, cnt)), str(cnt)]},
+                {'op': ['read', str(other), str(rng.randrange(0, 40)), '8']},
+                {'op': ['full', str(other)]}]))
+    # image A read, image B written (complete / faulted at chunk k >= 1 and resumed / behind the header), read again
+    for mode in ('complete', 'faulted', 'faulted', 'tail-first'):
+        for first in ('inv', 'hdr', 'area'):
+            a = fru_image(rng, rng.choice(['cbpm', 'bp', 'cm', 'bpm']))
+            b = fru_image(rng, rng.choice(['p', 'cb', 'pm', 'bm', 'cbpm']))
+            n = max(len(a), len(b)) + rng.choice([0, 8, 40])
+            fid = rng.choice([0, 5, 255])
+            oth = 9
+            dev = {'limit': rng.choice([32, 255, 16]), 'cc': rng.choice(REJECT), 'short': False, 'wmax': 16,
+                   'frus': [(fid, lean.hexs(a + _blob(rng, n - len(a)))), (oth, lean.hexs(fru_image(rng, 'cbp')))]}
+            steps = [{'op': [first, str(fid)] + (['b' if a[3] else 'p' if a[4] else 'c'] if first == 'area' else [])},
+                     {'op': ['inv', str(oth)]}]
+            w = ['write', str(fid), '0', lean.hexs(b)]
+            if mode == 'complete':
+                steps.append({'op': w})
+            elif mode == 'faulted':
+                nch = (len(b) + wl - 1) // wl
+                k = rng.randrange(1, nch)
+                flt = [k, 'c', rng.choice(FAULT_CODES)] if rng.random() < 0.5 else [k, 's', rng.choice([0, 3])]
+                j = k * wl + (flt[2] if flt[1] == 's' else 0)
+                steps.append({'op': w, 'faults': [flt]})
+                steps.append({'op': ['write', str(fid), str(j), lean.hexs(b[j:])]})
+            else:
+                steps.append({'op': ['write', str(fid), '8', lean.hexs(b[8:])]})
+                steps.append({'op': ['write', str(fid), '0', lean.hexs(b[:8])]})
+            steps.append({'op': ['inv', str(fid)]})
+            steps.append({'op': ['mr', str(fid)]})
+            out.append(('image-replaced-' + mode, dev, steps))
+    return out
 
 
 # ---- generators --------------------------------------------------------------------------
